@@ -150,7 +150,7 @@ func SignRaw(alg string, key any, input []byte) ([]byte, error) {
 	switch {
 	case strings.HasPrefix(alg, "HS"):
 		secret, ok := key.([]byte)
-		if !ok {
+		if !ok || len(alg) != 5 {
 			return nil, errors.New("HMAC needs a byte key")
 		}
 
@@ -166,6 +166,10 @@ func SignRaw(alg string, key any, input []byte) ([]byte, error) {
 		}
 
 		return ed25519.Sign(k, input), nil
+	}
+
+	if len(alg) != 5 || (alg[2:] != "256" && alg[2:] != "384" && alg[2:] != "512") {
+		return nil, errors.New("unsupported alg " + alg)
 	}
 
 	h, hf := hashFor(alg)
